@@ -19,7 +19,7 @@ import ast
 
 from ..astutil import attr_writes, call_name, calls, dotted, param_names, stmts, walk_local
 from ..cfg import CFG
-from ..exprnorm import same_expr, summarize
+from ..exprnorm import same_expr, summarize, has_code
 from ..core import AnalysisError, Mutant
 from ..program import ClassIndex
 
@@ -358,7 +358,28 @@ def escape_decision_table(ctx, esc, pname, triggers, anywhere):
           "an empty value must be written as a quoted empty string", esc.lineno)
 
 
+def serialized_key_rule(ctx, rule):
+    """a container writes every element under the key it holds it by - also an element that is still in serialised form (put in as a
+    dict, or never looked at since the file was read): the key is stored on every pass of the loop, whatever the kind of the element"""
+    f = ctx.src(COMP).func("_HierarchicalContainer._serialize_elements")
+    loops = [st for st in f.body if isinstance(st, ast.For)]
+    ctx.need(len(loops) == 1, "the element loop of _serialize_elements")
+    keyed = [st for st in loops[0].body if isinstance(st, ast.If) and same_expr(st.test, "store_key_in is not None")
+             and any(isinstance(x, ast.Assign) and has_code(x, "serialized_element[store_key_in] = key") for x in st.body)]
+    ctx.ob(rule, COMP, "_HierarchicalContainer._serialize_elements", "serialized_element[store_key_in] = key for every element",
+           len(keyed) == 1,
+           "an element held in serialised form keeps the name it was serialised with: put under another key (or taken from another file) "
+           "it is written under its old name, or under none", f.lineno)
+
+
 def run(ctx):
+    serialized_key_rule(ctx, "R2.element-written-under-its-key")
+    # the functions that read a parsed file (get_sequence, get_structure, ..) leave its string tables as they are: an array handed out by
+    # as_array(str) may be the column's own data
+    from ..lints import caller_arguments_untouched
+    caller_arguments_untouched(ctx, "structure/io/pdbx/convert.py", "R2.reading-leaves-the-file",
+                               {("set_structure", "pdbx_file"): "the file is what set_structure fills",
+                                ("set_component", "pdbx_file"): "the file is what set_component fills"}, 3)
     from ..lints import constructors_leave_arguments
     for rel_ in (CIF, BCIF, COMP):
         constructors_leave_arguments(ctx, rel_, "R2.constructor-leaves-arguments")
